@@ -742,6 +742,7 @@ func runC06(w *World, r *Report) {
 	shareRule(w, r, "C06.interrupts-all-collected", "waitAll returns only when nothing is outstanding, also when a collected task carries an error: a second interrupting node, or an interrupt-after node finishing later, is in the report and the checkpoint", 2, "C03", "C03.wait-all-drains")
 	shareRule(w, r, "C06.channel-state-restored-whole", "what a checkpoint holds of a channel (values, arrivals, the skipped mark) is all taken over on load: a node the run had decided not to run is not reported as an interrupt-before node after a resume", 8, "C05", "C05.channel-state")
 	shareRule(w, r, "C06.state-saved-by-its-owner-only", "an interrupt reports and saves a state only for the graph that owns one (the lookup stands under the runner having a state generator): a stateless nested graph does not save the parent's state as its own and continue on a detached copy", 1, "C11", "C11.survives")
+	shareRule(w, r, "C06.tool-interrupt-reaches-the-engine", "an interrupt raised inside a tool reaches the engine through errors.Is / errors.As on the tools node's error: every error the tools node builds around a tool's error wraps it with %w, in Invoke as in Stream", 1, "C13", "C13.percent-w")
 
 	r.Rule("C06.bundled-state-serializable", "the local state types of the bundled flows (the type a flow hands to WithGenLocalState: react, host multi-agent) are registered with the checkpoint serializer in their package and have exported fields only: an interrupt in or next to an exported agent graph writes that state into the checkpoint, and a caller cannot register an unexported type", 2)
 	{
@@ -889,6 +890,66 @@ func runC06(w *World, r *Report) {
 		})
 		if n < 3 {
 			undecidedf("C06.checkpoint-id-from-caller-only: only %d uses of the checkpoint id found in run", n)
+		}
+		// … whatever it is: getCheckPointInfo adopts an option's id when the option carries one (opt.checkPointID != nil) and
+		// under no further test of the id's content — "" is an id like any other, the caller supplied it
+		{
+			fID := w.Field("compose", "Option", "checkPointID")
+			k := 0
+			instrs(gci, func(in ssa.Instruction) {
+				ph, ok := in.(*ssa.Phi)
+				if !ok {
+					return
+				}
+				for i, e := range ph.Edges {
+					if !isLoadOfField(e, fID) {
+						continue
+					}
+					k++
+					pred := ph.Block().Preds[i]
+					var gs []guard
+					gs = append(gs, guardsOf(pred)...)
+					gs = append(gs, guardsOfEdge(pred, ph.Block())...)
+					var extra []string
+					for _, g := range gs {
+						if guardNonNil(g, func(v ssa.Value) bool { return isLoadOfField(v, fID) }) {
+							continue
+						}
+						// the loop's own condition (index < len)
+						if op, x, _, okc := asCmp(g.cond); okc && op == token.LSS {
+							if _, isLoad := x.(*ssa.UnOp); !isLoad {
+								continue
+							}
+						}
+						extra = append(extra, guardText(g))
+					}
+					r.Check(len(extra) == 0, "C06.checkpoint-id-from-caller-only", fmt.Sprintf("getCheckPointInfo adopts the option's id (#%d)", k), ph.Pos(), "under opt.checkPointID != nil only", "the id is adopted only under "+strings.Join(extra, " && ")+": for WithCheckPointID(\"\") the interrupt is still honoured and returned, but no checkpoint is written under the id the caller supplied — the run restarts from START on every call and stops at the same interrupt point for ever")
+				}
+			})
+			if k == 0 {
+				undecidedf("C06.checkpoint-id-from-caller-only: getCheckPointInfo's adoption of the option's id not found")
+			}
+		}
+	}
+
+	r.Rule("C06.interrupt-lists-snapshotted", "the lists of interrupt-before / interrupt-after nodes the compiled runner reads on every run are its own: graph.compile stores a copy, never the slice the caller handed to WithInterruptBeforeNodes / WithInterruptAfterNodes — a caller that reuses or edits that slice after Compile would silently move or remove the interrupt points of a compiled graph", 2)
+	{
+		gc := w.Fn("compose", "graph.compile")
+		rT := w.Named("compose", "runner")
+		n := 0
+		for _, fw := range fieldWrites(gc) {
+			if fw.owner != rT || fw.kind != "store" {
+				continue
+			}
+			if nm := fw.field.Name(); nm != "interruptBeforeNodes" && nm != "interruptAfterNodes" {
+				continue
+			}
+			n++
+			lf, _ := loadedField(fw.val)
+			r.Check(lf == nil, "C06.interrupt-lists-snapshotted", "graph.compile: runner."+fw.field.Name()+" is a copy", fw.in.Pos(), "not the option's slice itself", "the runner keeps the caller's slice (the option stores it as it came, compile hands it on as it is): editing or reusing that slice after Compile removes the interrupt point — the interrupt-before node runs without any interrupt, the interrupt-after node's successor starts; sequential, no race needed")
+		}
+		if n < 2 {
+			undecidedf("C06.interrupt-lists-snapshotted: only %d stores of the runner's interrupt lists in graph.compile", n)
 		}
 	}
 
